@@ -28,7 +28,7 @@ let () =
   try
     while true do
       let line = input_line stdin in
-      let toks = Array.of_list (String.split_on_char ' ' (String.trim line)) in
+      let toks = Array.of_list (List.filter (fun t -> t <> "") (String.split_on_char ' ' (String.trim line))) in
       (match toks.(0) with
        | "gen" ->
          let fn = toks.(1) and m = mode_of toks.(2) in
@@ -48,6 +48,51 @@ let () =
             let data = blocks_of_hex toks.(6) nd size in
             let par = spec_blocks (gen_mat m g) (gen_np g) (nat_of_int size) data in
             print_endline ("ok " ^ hex_of_blocks par))
+       | "rec" | "data" | "check" | "scan" ->
+         let cmd = toks.(0) in
+         let k = ref 1 in
+         let next () = let t = toks.(!k) in incr k; t in
+         let _fam = if cmd = "rec" || cmd = "data" then next () else "disp" in
+         let m = mode_of (next ()) in
+         let nd = int_of_string (next ()) in
+         let np = int_of_string (next ()) in
+         let size = int_of_string (next ()) in
+         let nr = if cmd = "scan" then 0 else int_of_string (next ()) in
+         let ir = List.init nr (fun _ -> nat_of_int (int_of_string (next ()))) in
+         let ip = if cmd = "data" then List.init nr (fun _ -> nat_of_int (int_of_string (next ()))) else [] in
+         let bufs = blocks_of_hex (next ()) (nd + np) size in
+         let ndn = nat_of_int nd and npn = nat_of_int np and sz = nat_of_int size in
+         (match cmd with
+          | "rec" -> (match raid_rec_blocks m ndn npn ir sz bufs with
+                      | None -> print_endline "abort" | Some b -> print_endline ("ok " ^ hex_of_blocks b))
+          | "data" -> (match raid_data_blocks m ndn npn ir ip sz bufs with
+                       | None -> print_endline "abort" | Some b -> print_endline ("ok " ^ hex_of_blocks b))
+          | "check" -> (match raid_check_blocks m ndn npn ir sz bufs with
+                        | None -> print_endline "abort" | Some true -> print_endline "ret 0" | Some false -> print_endline "ret -1")
+          | _ -> (match raid_scan_blocks m ndn npn sz bufs with
+                  | None -> print_endline "ret -1"
+                  | Some c -> print_endline (String.concat " " (("ret " ^ string_of_int (List.length c)) :: List.map (fun x -> string_of_int (int_of_nat x)) c))))
+       | "invert" ->
+         let n = int_of_string toks.(1) in
+         let l = bytes_of_hex toks.(2) 0 (n * n) in
+         (match invertN (mx_of_list (nat_of_int n) l) (nat_of_int n) with
+          | None -> print_endline "abort"
+          | Some v -> print_endline ("ok " ^ hex_of_block (list_of_mx (nat_of_int n) v)))
+       | "sort" ->
+         let n = int_of_string toks.(1) in
+         let v = List.init n (fun i -> nat_of_int (int_of_string toks.(2 + i))) in
+         print_endline (String.concat " " ("ok" :: List.map (fun x -> string_of_int (int_of_nat x)) (raid_sort_model v)))
+       | "insert" ->
+         let n = int_of_string toks.(1) in
+         let v = List.init n (fun i -> nat_of_int (int_of_string toks.(2 + i))) in
+         let x = nat_of_int (int_of_string toks.(2 + n)) in
+         print_endline (String.concat " " ("ok" :: List.map (fun x -> string_of_int (int_of_nat x)) (raid_insert_model v x)))
+       | "combo" ->
+         let r = int_of_string toks.(1) and n = int_of_string toks.(2) in
+         let all = comb_all (binom (nat_of_int n) (nat_of_int r)) (nat_of_int r) (nat_of_int n) (comb_first (nat_of_int r)) in
+         let count = List.length all in
+         let sum = List.fold_left (fun s c -> List.fold_left (fun s x -> (s * 31 + int_of_nat x + 1) mod 1000000007) s c) 0 all in
+         Printf.printf "ok %d %d\n" count sum
        | _ -> print_endline "unknown");
       flush stdout
     done
